@@ -229,6 +229,10 @@ def check(world, tier):
                 r = S.g.reachable([s_], stop_at=own_err)
                 b.ob(not (r & own_ok), "continues-after-sending-error", "the transfer continues after the worker itself sent an ERROR", )
 
+    # a peer's ERROR is recognised as such even when its message is missing or unterminated (otherwise it is counted as a failed
+    # receive and the transfer goes on until the retry bound)
+    from . import C11
+    import_clause(world, tier, b, C11, "C11.c", ("minimal-error",), "peer ERROR recognised by opcode and code")
     # ---- C07.c typestate (ghost eof) + final block of the receiver (ghost final)
     g_eof = [o for o in eng.obligations.values() if o.kind == "ghost:eof" and o.region == S.name]
     c.need(len(g_eof), 1, "queue pushes in the send region (monitor eof)")
@@ -311,6 +315,23 @@ def time_bounded(world, eng, a):
         a.ob(bool(same), "read-timeout-before-worker in %s" % short(e.body),
              "a worker is created without set_read_timeout(<the negotiated timeout>) on its socket (a silent peer blocks it forever)", e.loc,
              sample={"Worker::new at": e.loc, "dominating set_read_timeout with the same Duration": len(same)})
+    # the OS-level receive of the UDP-backed socket is not retried inside the impl: an expired read timeout (WouldBlock / TimedOut)
+    # surfaces as Err to the worker's retry accounting
+    for meth in ("recv_with_size", "recv_from_with_size"):
+        impl_u = "tftpd::<std::net::UdpSocket as socket::Socket>::" + meth
+        if impl_u not in prog.bodies:
+            a.fail("anchor-lost UdpSocket::%s" % meth, "impl Socket for UdpSocket::%s not found" % meth)
+            continue
+        eu = world.run("sock:" + impl_u)
+        gu = graph_of(eu)
+        osr = [e for e in eu.events if not e.inlined and base_name(e) in ("std::net::UdpSocket::recv", "std::net::UdpSocket::recv_from", "std::net::UdpSocket::peek",
+                                                                         "std::net::UdpSocket::peek_from")]
+        a.need(len(osr), 1, "OS receive in UdpSocket::%s" % meth)
+        for e in osr:
+            looped = gu.on_cycle_avoiding(e.node)
+            a.ob(not looped, "os-receive-retried in %s" % meth,
+                 "impl Socket for UdpSocket::%s calls the OS receive in a loop: a read time-out (reported as WouldBlock / TimedOut) can be retried there "
+                 "forever and never reaches the worker's bounded retry" % meth, e.loc, sample={"OS receive": base_name(e), "inside a loop": looped})
     # the channel-backed socket waits with a timeout taken from its own field, which set_read_timeout stores
     impl_recv = "tftpd::<socket::ServerSocket as socket::Socket>::recv_with_size"
     impl_set = "tftpd::<socket::ServerSocket as socket::Socket>::set_read_timeout"
